@@ -135,7 +135,7 @@ def call_impl(mode, shape, env):
     lists = _SHARED[:len(lists)]
     # the hashes may come in any iterable the functions accept on the pinned tree (list, tuple, a single-pass iterator): the root is the same
     _ncall[0] += 1
-    form = _ncall[0] % 3
+    form = (0, 0, 1, 0, 0, 2)[_ncall[0] % 6]      # mostly the reused list objects (consecutive calls see the same object with other contents)
     if form == 1:
         lists = [tuple(l) for l in lists]
     elif form == 2:
